@@ -44,6 +44,8 @@ impl Gen {
         // generated programs are small: a statement that needs more steps than this is a runaway
         // and is rejected at generation time
         model.step_limit = 6_000;
+        model.input = cfg.input.clone();
+        model.in_err_at = cfg.in_err_at;
         Gen {
             rng: Rng::new(seed),
             model,
